@@ -48,7 +48,7 @@ type Device struct {
 	Log         []*DevReq
 	// faults
 	failCodes  []codes.Code // the next requests fail with these codes (consumed one by one)
-	RejectCode codes.Code   // code used for DEVREJECT values (default InvalidArgument)
+	rejectCode codes.Code   // code used for DEVREJECT values (default InvalidArgument)
 	Restarts   int
 	w          *World
 }
@@ -57,6 +57,13 @@ type Device struct {
 func (d *Device) FailNext(cs ...codes.Code) {
 	d.mu.Lock()
 	d.failCodes = append(d.failCodes, cs...)
+	d.mu.Unlock()
+}
+
+// SetRejectCode sets the gRPC code the device answers a refused value with
+func (d *Device) SetRejectCode(c codes.Code) {
+	d.mu.Lock()
+	d.rejectCode = c
 	d.mu.Unlock()
 }
 
@@ -130,7 +137,7 @@ func (d *Device) handle(connID string, r *gnmi.SetRequest) (*DevReq, error) {
 	}
 	d.MaxElection = election
 	if refmodel.DeviceRejects(req.Ops) {
-		c := d.RejectCode
+		c := d.rejectCode
 		if c == codes.OK {
 			c = codes.InvalidArgument
 		}
